@@ -30,6 +30,8 @@ pub struct H {
     pub id: u64,
     pub res_bool: bool,
     pub enabled_handle: bool,
+    /// per-layer filter `enabled` evaluations on this thread during the operation
+    pub evals: u64,
 }
 pub static HIST: Mutex<Vec<H>> = Mutex::new(Vec::new());
 static TURN: AtomicUsize = AtomicUsize::new(0);
@@ -58,6 +60,7 @@ pub fn exec_step(gi: usize, t: usize, stack: usize, s: &Value, entered: &mut Vec
     let site = s["site"].as_u64().unwrap_or(0) as usize % sites::N;
     let uid = (gi as u64 + 1) * 1000;
     let mut h = H { gi, t, stack, op: op.clone(), applied: true, site, slot, ..Default::default() };
+    let evals0 = stack::FILTER_EVALS.with(|e| e.get());
     h.inv = detsim::stamp();
     match op.as_str() {
         "span" => {
@@ -147,6 +150,7 @@ pub fn exec_step(gi: usize, t: usize, stack: usize, s: &Value, entered: &mut Vec
         _ => h.applied = false,
     }
     h.ret = detsim::stamp();
+    h.evals = stack::FILTER_EVALS.with(|e| e.get()) - evals0;
     ev(format!("op {gi} t{t} S{stack} {op} slot{slot} site{site} applied={} uid={} id={} b={}", h.applied, h.uid, h.id, h.res_bool));
     HIST.lock().unwrap().push(h);
 }
@@ -523,7 +527,8 @@ pub fn oracle(hist: &[H], log: &[LRec], models: &[StackModel], stacks: &[Vec<Val
                     if got_leaves != want {
                         let missed: Vec<usize> = want.iter().filter(|l| !got_leaves.contains(l)).copied().collect();
                         let spurious: Vec<usize> = got_leaves.iter().filter(|l| !want.contains(l)).copied().collect();
-                        let f3 = !missed.is_empty() && spurious.is_empty() && missed.iter().all(|l| dirty_leaves.contains(l));
+                        // F3 needs an emission without an `enabled` pass (cached interest `always`): a pass rewrites every filter's bit
+                        let f3 = !missed.is_empty() && spurious.is_empty() && missed.iter().all(|l| dirty_leaves.contains(l)) && h.evals == 0;
                         let f7 = missed.is_empty() && !spurious.is_empty() && f7_shape;
                         let f14 = f14_shape && !missed.is_empty() && spurious.is_empty() && missed.iter().all(|l| model.leaves.iter().any(|m| m.id == *l && m.path.is_empty()));
                         let sig = if f14 {
